@@ -43,6 +43,11 @@ THEOREMS = [
     "floatStyles_last",
     "C05_float",
     "C05_new_node",
+    "spec_reads_renderPy",
+    "spec_reads_renderSci",
+    "C05_candidate_text",
+    "C05_float_text",
+    "C05_float_as_int",
     "C05_int_value",
     "C05_int_branch",
     "C05_trunc_ofInt",
@@ -55,7 +60,7 @@ THEOREMS = [
 
 WORKERS = 8
 MAX_CONFIRM = 12  # disagreements re-run singly in the parent process and minimised; further ones are counted only
-RENDER_OK = "render/parse inverse (Dec.value = Spec.parseChars = fortranFloat of the laid-out text; validated, not proved)"
+RENDER_OK = "render/parse inverse (Dec.value = Spec.parseChars = fortranFloat of the laid-out text; the fortranFloat half is validated, not proved)"
 FLOAT_BRANCH = {"e": "sci", "f": "fixed", "g": "general"}
 
 
@@ -628,17 +633,14 @@ def batch_par(drv, cases, workers=WORKERS):
         return None
     if len(cases) < 4000:
         return drv.batch(cases, timeout=7200)
-    n = max(1, min(workers, len(cases) // 2000))
-    size = (len(cases) + n - 1) // n
-    chunks = [cases[i : i + size] for i in range(0, len(cases), size)]
-    outs = pmap(lambda ch: drv.batch(ch, timeout=7200), chunks, workers=n, chunksize=1) if len(chunks) >= 2 else [drv.batch(chunks[0], timeout=7200)]
-    if len(chunks) < 32 and len(chunks) >= 2:
-        # pmap runs sequentially below 32 items: do the fan-out by hand
-        import multiprocessing as mpx
+    import multiprocessing as mpx
 
-        ctx = mpx.get_context("fork")
-        with ctx.Pool(n) as pool:
-            outs = pool.map(_BatchCall(drv), chunks, chunksize=1)
+    n = max(2, min(workers, len(cases) // 2000))
+    size = min(20000, (len(cases) + n - 1) // n)  # bounded chunks: bounded memory per driver call
+    chunks = [cases[i : i + size] for i in range(0, len(cases), size)]
+    ctx = mpx.get_context("fork")
+    with ctx.Pool(n) as pool:
+        outs = pool.map(_BatchCall(drv), chunks, chunksize=1)
     return [r for ch in outs for r in ch]
 
 
